@@ -167,6 +167,21 @@ fn op_config(req: &Value) -> Value {
     r
 }
 
+mod split_section {
+    include!(concat!(env!("OUT_DIR"), "/split_section.rs"));
+}
+
+/// the private `split_at_config_section` of cfg_file.rs, as extracted from /repo's source by build.rs
+fn op_manifest_split(req: &Value) -> Value {
+    if !split_section::SPLIT_EXTRACTED {
+        return json!({"unavailable": "fn split_at_config_section not found in cfg_file.rs"});
+    }
+    match split_section::split_at_config_section(req["text"].as_str().unwrap()) {
+        Some((b, a)) => json!({"before": b, "after": a}),
+        None => json!({"absent": true}),
+    }
+}
+
 fn oracle(locales: &[String], operands: &[String]) -> Value {
     use icu_plurals::{PluralRuleType, PluralRules};
     let mut cats = vec![];
@@ -247,6 +262,7 @@ fn handle(req: &Value) -> Value {
         "key_new" => op_key_new(req),
         "range_new" => op_range_new(req),
         "config" => op_config(req),
+        "manifest_split" => op_manifest_split(req),
         "pipeline" => op_pipeline(req),
         other => json!({"bad_op": format!("unknown op {other}")}),
     }
